@@ -11,6 +11,7 @@ import (
 	"github.com/nspcc-dev/neo-go/pkg/core/transaction"
 	"github.com/nspcc-dev/neo-go/pkg/crypto/keys"
 	"github.com/nspcc-dev/neo-go/pkg/neotest"
+	"github.com/nspcc-dev/neo-go/pkg/smartcontract/callflag"
 	"github.com/nspcc-dev/neo-go/pkg/smartcontract/manifest"
 	"github.com/nspcc-dev/neo-go/pkg/util"
 
@@ -194,6 +195,7 @@ type callerSpec struct {
 	Perms []permShape `json:"permissions"`
 	name  string
 	c     *neotest.Contract
+	tc    *neotest.Contract // the same permissions on a hand-assembled caller that uses method tokens (CALLT)
 }
 
 func (c callerSpec) String() string {
@@ -243,6 +245,7 @@ type permStats struct {
 	mu         sync.Mutex
 	pure, real int64
 	block      int64
+	token      int64
 	rootCause  int64 // mismatches explained by the group kind skipping the method list
 	witness    map[string]*permCase
 	rootBySub  map[string]int
@@ -255,7 +258,7 @@ type permStats struct {
 func (ps *permStats) report(r *vk.Run, pc permCase, perms []permShape, c *callee) {
 	ps.mu.Lock()
 	defer ps.mu.Unlock()
-	if pc.Got == "allowed" && pc.Want == "denied" && !strings.Contains(pc.Sub, "after-restart") && !strings.Contains(pc.Note, "stack item") && !strings.Contains(pc.Note, "StackItem") && groupRootCause(perms, c, pc.Method) {
+	if pc.Got == "allowed" && pc.Want == "denied" && !strings.Contains(pc.Sub, "after-restart") && !strings.Contains(pc.Note, "stack item") && !strings.Contains(pc.Note, "StackItem") && (pc.Sub == "perm-pure" || ps.rootBySub["perm-pure"] > 0) && groupRootCause(perms, c, pc.Method) {
 		ps.rootCause++
 		ps.rootBySub[pc.Sub]++
 		// keep the simplest witness of each sub-check: fewest permissions, earliest
@@ -398,4 +401,60 @@ func manifestOf(pw *permWorld, cs callerSpec) *manifest.Manifest {
 	m := manifest.NewManifest("caller")
 	m.Permissions = pw.realPerms(cs.Perms)
 	return m
+}
+
+// permTokens: one token (all flags) per callee method, in the order of the matrix.
+func (pw *permWorld) permTokens() []tokSpec {
+	var out []tokSpec
+	for _, c := range pw.callees {
+		for _, md := range c.Methods {
+			out = append(out, tokSpec{Name: fmt.Sprintf("c%d", len(out)), Hash: c.Hash, Method: md.Name, NParam: len(md.Args(util.Uint160{})), Ret: true, Flags: callflag.All})
+		}
+	}
+	return out
+}
+
+// deployTokenCallers deploys, for every given caller, a contract with the same
+// permissions whose methods reach the callees through CALLT.
+func (pw *permWorld) deployTokenCallers(cs []callerSpec) error {
+	sender := pw.n.Validator.ScriptHash()
+	toks := pw.permTokens()
+	const batch = 25
+	for i := 0; i < len(cs); i += batch {
+		var txs []*transaction.Transaction
+		part := cs[i:min(i+batch, len(cs))]
+		for j := range part {
+			t, err := buildTokenContract(fmt.Sprintf("TP%d", i+j), sender, pw.realPerms(part[j].Perms), toks)
+			if err != nil {
+				return err
+			}
+			part[j].tc = t
+			tx, err := pw.n.DeployTx(t, pw.n.Validator, nil)
+			if err != nil {
+				return fmt.Errorf("deploy tx of token caller %s: %w", part[j].String(), err)
+			}
+			txs = append(txs, tx)
+		}
+		if _, err := pw.n.AddBlock(txs...); err != nil {
+			return err
+		}
+		for j, tx := range txs {
+			if err := pw.n.CheckHalt(tx.Hash()); err != nil {
+				return fmt.Errorf("deploy token caller %s: %w", part[j].String(), err)
+			}
+		}
+	}
+	return nil
+}
+
+// tokenCall performs entry(All) -> tokenCaller.c<i>(All) -> CALLT -> callee.method.
+func (pw *permWorld) tokenCall(cs callerSpec, tok int, md calleeMethod) (string, *effects) {
+	e := pw.run(callScript(cs.tc.Hash, fmt.Sprintf("c%d", tok), 15, md.Args(cs.tc.Hash)...), fAll)
+	switch {
+	case e.State == "HALT":
+		return "allowed", e
+	case e.State == "FAULT" && strings.Contains(e.Fault, "disallowed method call"):
+		return "denied", e
+	}
+	return "error", e
 }
